@@ -119,11 +119,11 @@ def Acct (s : Proc) (g : Ghost) (k : Nat) : Prop :=
   s.backlog = g.items.length + s.ioQueue.length + boolNat s.fragBlock.isSome + k
 
 /-- the invariant of the implementation model between two primitive steps; `held` = blocks the front end has
-obtained from `get_new_block` and not yet stored in `blk_current` or submitted -/
+obtained from `get_new_block` and not yet stored in `blk_current` or submitted.  (The front end's own invariant,
+`FrontInv P.B s.fe g.front s.w.inodes.length`, is carried next to it: draining the pool does not touch it.) -/
 structure PInv (P : Params) (s : Proc) (g : Ghost) (held : Nat) (W : WSt) : Prop where
   back : Back P s g (g.F P) W
   acct : Acct s g (boolNat s.blkCurrent.isSome + held)
-  feInv : FrontInv P.B s.fe g.front s.w.inodes.length
   finNoPend : g.fin = true → g.pend = []
 
 end Sqfs.BlockProc
